@@ -25,6 +25,7 @@ type guardedField struct {
 	Field  int
 	Elems  bool // elems(T.f): the contents of the slice stored in the field are guarded too
 	Buffer bool // buffer(T.f): the ghost state of the *bytes.Buffer stored in the field
+	MapOf  bool // mapof(T.f): the contents of the Go map stored in the field
 }
 
 type Discipline struct {
@@ -75,6 +76,10 @@ func (w *World) discipline() *Discipline {
 				if strings.HasPrefix(f, "buffer(") {
 					gf.Buffer = true
 					f = strings.TrimSuffix(strings.TrimPrefix(f, "buffer("), ")")
+				}
+				if strings.HasPrefix(f, "mapof(") {
+					gf.MapOf = true
+					f = strings.TrimSuffix(strings.TrimPrefix(f, "mapof("), ")")
 				}
 				parts := strings.Split(strings.TrimSpace(f), ".")
 				if len(parts) != 2 {
@@ -163,7 +168,7 @@ func (e *Exec) classOf(lock Val) string {
 
 func (e *Exec) lockEffects() []string {
 	// acquiring a lock havocs what it guards
-	set := map[string]bool{"G_held": true}
+	set := map[string]bool{"G_held": true, e.heapMap("G_heldx", "(Array Int Bool)"): true}
 	for _, lc := range e.w.discipline().classes {
 		for _, gf := range lc.Fields {
 			set[e.fieldMap(gf.Struct, gf.Field)] = true
@@ -175,6 +180,12 @@ func (e *Exec) lockEffects() []string {
 			if gf.Buffer {
 				for _, m := range e.bufferMaps() {
 					set[m] = true
+				}
+			}
+			if gf.MapOf {
+				if mt, ok := gf.Struct.Underlying().(*types.Struct).Field(gf.Field).Type().Underlying().(*types.Map); ok {
+					mv, md, mc := e.mapHeaps(mt)
+					set[mv], set[md], set[mc] = true, true, true
 				}
 			}
 		}
@@ -273,6 +284,21 @@ func (e *Exec) havocGuarded(fr *Frame, st *State, lc *lockClass, root string) {
 				cur := sel(e.hget(st, m), root)
 				na := e.sc.freshConst("guarded.elems", "(Array Int "+e.sc.sortOf(sl.Elem())+")")
 				e.hset(st, em, ite(isFresh, eh, sto(eh, "(s_arr "+cur+")", na)))
+			}
+		}
+		if gf.MapOf {
+			// the map object stays the same; its contents are whatever other goroutines left there
+			if mt, ok := ft.Underlying().(*types.Map); ok {
+				e.sc.assume(st.reach, eq(nv, oldv))
+				mv, md, mc := e.mapHeaps(mt)
+				for _, hm := range []string{mv, md, mc} {
+					hh := e.hget(st, hm)
+					srt := e.heapSort[hm]
+					inner := srt[len("(Array Int ") : len(srt)-1]
+					nc := e.sc.freshConst("guarded.map", inner)
+					e.hset(st, hm, ite(isFresh, hh, sto(hh, oldv, nc)))
+				}
+				e.mapFacts(st, mt, oldv)
 			}
 		}
 	}
